@@ -3,6 +3,7 @@ package mc
 import (
 	"bufio"
 	"bytes"
+	stdctx "context"
 	"encoding/json"
 	"fmt"
 	"io"
@@ -14,8 +15,12 @@ import (
 	"strconv"
 	"strings"
 	"sync"
+	"sync/atomic"
+	"syscall"
 	"testing"
 	"time"
+
+	"github.com/gostdlib/base/concurrency/worker"
 )
 
 // EnumEnv is what an enumerator gets from its worker.
@@ -108,7 +113,9 @@ func runItem(t *testing.T, it *WorkItem, wal *os.File) *WorkResult {
 			return res
 		}
 		start := time.Now()
+		restore := freshDefaultPool()
 		res.Enum = pd.Enum(&EnumEnv{T: t, Tier: *flagTier}, it)
+		restore()
 		res.Stats.WallMS = time.Since(start).Milliseconds()
 	default:
 		res.Err = "unknown kind " + it.Kind
@@ -192,6 +199,7 @@ type death struct {
 	Item   *WorkItem
 	Stderr string
 	WAL    string
+	Hung   bool // killed by the coordinator's watchdog
 }
 
 type aggregate struct {
@@ -277,15 +285,22 @@ func coordinate(prop, tier string) int {
 				_, werr := wp.stdin.Write(b)
 				var line []byte
 				var rerr error
+				var hung atomic.Bool
 				if werr == nil {
+					// Watchdog: an item that runs far beyond its own internal caps means the process is stuck outside
+					// a bubble (inside one, a hang is detected exactly); it is asked for a goroutine dump and counted.
+					limit := 45*time.Minute + 4*time.Duration(it.Opts.MaxSeconds)*time.Second
+					proc := wp.cmd.Process
+					wd := time.AfterFunc(limit, func() { hung.Store(true); proc.Signal(syscall.SIGQUIT) })
 					line, rerr = wp.res.ReadBytes('\n')
+					wd.Stop()
 				}
 				if werr != nil || rerr != nil {
 					// the worker died on this item
 					wp.cmd.Wait()
 					walb, _ := os.ReadFile(wp.wal)
 					agg.mu.Lock()
-					agg.deaths = append(agg.deaths, death{Item: it, Stderr: wp.stderr.String(), WAL: string(walb)})
+					agg.deaths = append(agg.deaths, death{Item: it, Stderr: wp.stderr.String(), WAL: string(walb), Hung: hung.Load()})
 					agg.mu.Unlock()
 					os.Remove(wp.wal)
 					wp = nil
@@ -373,6 +388,9 @@ func report(pd *PropDef, tier string, agg *aggregate, nItems int, wall time.Dura
 	for i, d := range agg.deaths {
 		v := &Violation{Property: pd.ID, Rule: "process-died", Signature: deathSignature(d.Stderr),
 			Msg: "the process running the engine died (panic or exit) during this scenario"}
+		if d.Hung {
+			v.Rule, v.Signature, v.Msg = "process-hung", "watchdog", "the process running the engine made no progress outside a bubble for far longer than every internal cap; it was stopped with a goroutine dump"
+		}
 		f := &Found{V: *v, Scenario: d.Item.Scenario, Stable: true, Events: tailLines(d.Stderr, 60), Choices: walChoices(d.WAL)}
 		_ = i
 		agg.found = append(agg.found, f)
@@ -618,4 +636,16 @@ func replayFile(t *testing.T, path string) int {
 		fmt.Println("no violation on this tree for this schedule")
 	}
 	return code
+}
+
+// freshDefaultPool installs a worker pool that lives outside every bubble as the process default. Executions in a
+// bubble install (and close) their own pool; an enumerator running afterwards in the same worker outside a bubble
+// would otherwise submit storage work (the List stream) to the closed pool of a dead bubble and wait for ever.
+func freshDefaultPool() func() {
+	pool, err := worker.New(stdctx.Background(), "enum", worker.WithSize(16))
+	if err != nil {
+		panic(err)
+	}
+	worker.Set(pool)
+	return func() { pool.Close(stdctx.Background()) }
 }
